@@ -590,6 +590,17 @@ static Result run_c20(const Case &c) {
             ref::reseal(f.data());
         }
         if (kd == 3) { size_t off = (size_t)a % 71; uint8_t x = (uint8_t)(1 + (v % 255)); f[off] ^= x; }
+        if (kd == 6) {
+            // the whole header as a host of the other byte order stores it, sealed accordingly (payload untouched): a
+            // consistent header, but not one this host may decode from - validation must drop it like any other invalid one
+            auto sw32 = [&](int off) { ref::put32(&f[off], __builtin_bswap32(ref::get32(&f[off]))); };
+            sw32(ref::O_IDX); sw32(ref::O_SIZE); sw32(ref::O_BMS);
+            uint64_t o = ref::get64(&f[ref::O_ORIG]);
+            ref::put64(&f[ref::O_ORIG], ((uint64_t)__builtin_bswap32((uint32_t)o) << 32) | __builtin_bswap32((uint32_t)(o >> 32)));
+            for (int q = 0; q < 8; q++) sw32(ref::O_CHK + 4 * q);
+            sw32(ref::O_BEVER); sw32(ref::O_MAGIC); sw32(ref::O_LIBVER);
+            ref::put32(&f[ref::O_MCRC], __builtin_bswap32(ref::crc32_std(f.data(), ref::META_LEN)));
+        }
         bool valid = !ref::fragment_invalid(g, running, f.data());
         if (kd != 0 && valid) { r.skipped = true; return r; }   // damage that validation is not specified to catch (e.g. CRC-colliding)
         if (kd == 0 && !valid) { r.fail("reference considers an untouched fragment invalid (model error)"); return r; }
@@ -656,7 +667,7 @@ static Case gen_c20() {
         if (coin(2, 3)) {    // prefer data fragments
             for (int tries = 0; tries < 4 && present[pos] >= g.k; tries++) pos = (int)pick(0, (int64_t)present.size() - 1);
         }
-        kind[pos] = 1 + weighted({5, 3, 2, 2, 1});
+        kind[pos] = 1 + weighted({5, 3, 2, 2, 1, 2});
         arg[pos] = (int)pick(0, 1 << 20);
         val[pos] = (int)pick(0, 1 << 16);
     }
@@ -721,6 +732,10 @@ static void *c05_decoder(void *p) {
         FragSet f2; f2.build(frs, {});
         ReconOut o = reconstruct(a.desc, f2, a.s->fraglen, E[0]);
         if (a.err.empty() && (o.rc != 0 || o.out != a.s->frags[E[0]])) a.err = "reconstruct failed or differs while instances of the same shape are being created";
+        if ((r % 4) == 0 && a.err.empty()) {      // and the same data encodes to the same bytes, whatever the other threads are in the middle of
+            Stripe again = encode(a.desc, a.g, a.s->data);
+            if (again.rc != 0 || again.frags != a.s->frags) a.err = "encode output differs from the sequential one while instances of the same shape are being created";
+        }
     }
     a.stop->store(1);
     return nullptr;
@@ -925,6 +940,24 @@ static void sweep_c01_mt() {
         c.set("data_cls", BUF_RANDOM); c.set("data_seed", 4100 + counter); c.set("data_len", (int64_t)g.k * ((g.backend == ref::B_XOR && g.hd == 4) ? (128 << 10) : 20) + (counter % 3));
         bool big = g.backend == ref::B_XOR && g.hd == 4;       // long copies inside the decoder: concurrent decodes on ONE descriptor overlap for real
         c.set("decoders", big ? 3 : 2); c.set("creators", big ? 1 : 2); c.set("rounds", big ? (th ? 1500 : 250) : (th ? 3000 : 400)); c.set("seed", opts().seed * 137 + counter);
+        sweep_case(c, run_c05_mt);
+    }
+}
+
+// C15 across threads: encode / decode / rebuild results on a live instance are the same bytes whatever unrelated API
+// activity (creates and destroys of other instances of the same back end) runs at the same time
+static void sweep_c15_mt() {
+    int shard = (int)opts().shard, ns = (int)opts().nshards, counter = 0;
+    bool th = opts().tier == "thorough";
+    std::vector<Config> cfgs;
+    auto add = [&](int be, int k, int m, int hd) { Config g; g.backend = be; g.k = k; g.m = m; g.hd = hd; g.ct = (k & 1) ? CT_NONE : CT_CRC32; cfgs.push_back(g); };
+    add(ref::B_RS, 4, 3, 3); add(ref::B_RS, 10, 4, 4); add(ref::B_RS, 2, 6, 6); add(ref::B_XOR, 10, 5, 3); add(ref::B_XOR, 12, 6, 4);
+    if (isa_available()) add(ref::B_ISA_V, 6, 3, 3);
+    for (auto &g : cfgs) {
+        if ((counter++ % ns) != shard) continue;
+        Case c; cfg_to(c, g);
+        c.set("data_cls", BUF_RANDOM); c.set("data_seed", 4500 + counter); c.set("data_len", (int64_t)g.k * 512 + (counter % 3));
+        c.set("decoders", 2); c.set("creators", 2); c.set("rounds", th ? 4000 : 600); c.set("seed", opts().seed * 149 + counter);
         sweep_case(c, run_c05_mt);
     }
 }
@@ -1136,6 +1169,7 @@ int main(int argc, char **argv) {
     h.mode("c05_mt", sweep_c05_mt, run_c05_mt);
     h.mode("c01_mt", sweep_c01_mt, run_c05_mt);
     h.mode("c19_mt", sweep_c19_mt, run_c05_mt);
+    h.mode("c15_mt", sweep_c15_mt, run_c05_mt);
     h.mode("c19", [] { rc_property("C19 ISA-L adapters", gen_c19, run_c19); }, run_c19);
     h.mode("c19_sweep", sweep_c19, run_c19);
     h.mode("c19_singular", sweep_c19_singular, run_c19);
